@@ -60,7 +60,7 @@ def boot():
                 continue
             try:
                 importlib.import_module(mi.name)
-            except ImportError:
+            except Exception:   # optional extras (LLM SDKs) may be absent; needed modules are imported by the props
                 pass
     finally:
         _dt.datetime = real
